@@ -189,6 +189,17 @@ def prop_c13filter(f, envs):
     if len(flt) > 2 and int.from_bytes(flt[-2:], "big") & 0x8000:
         return "ok not-wellformed (open OR group at the end)"
     ids = [int.from_bytes(flt[p:p + 2], "big") & 0x3FFF for p in range(2, len(flt), 2)]
+    try:
+        # the shape of the rendering: AND of groups, a group is one (negated) name or a parenthesised OR of them
+        from bec2format.hwcids import HWCID_MAP as _M
+        for grp in (s.split(" & ") if s else []):
+            grp = grp.strip()
+            atoms = grp[1:-1].split(" | ") if grp.startswith("(") and grp.endswith(")") else [grp]
+            for a in atoms:
+                a = a.strip().lstrip("!")
+                int(a, 16) if a.startswith("0x") else _M[a]
+    except Exception:
+        return f"FAIL the rendered filter {s!r} is not an expression of the documented shape (AND of names / parenthesised ORs)"
     for mask in range(int(envs)):
         present = {h for i, h in enumerate(ids) if (mask >> (i % 8)) & 1}
         if eval_filter_bytes(flt, present) != eval_expr(s, present):
